@@ -13,6 +13,11 @@ import time
 def warm():
     root = os.environ.get('VERIF_REPO', '/repo')
     sys.path.insert(0, root)
+    here = os.path.dirname(os.path.dirname(os.path.abspath(__file__)))
+    sys.path.insert(0, here)
+    # cooperative locks for the simulated code base: must be in place before it is imported
+    from dsim import simlock
+    simlock.install()
     import sly  # noqa
     import sqlalchemy  # noqa
     import mindsdb_sql  # noqa
@@ -25,8 +30,6 @@ def warm():
     import mindsdb_sql.parser.lexer, mindsdb_sql.parser.parser  # noqa
     import mindsdb_sql.parser.dialects.mysql.lexer, mindsdb_sql.parser.dialects.mysql.parser  # noqa
     import mindsdb_sql.parser.dialects.mindsdb.lexer, mindsdb_sql.parser.dialects.mindsdb.parser  # noqa
-    here = os.path.dirname(os.path.dirname(os.path.abspath(__file__)))
-    sys.path.insert(0, here)
     from dsim import child, ops, sched  # noqa
     child.corpus()
     try:
